@@ -52,6 +52,46 @@ Extension (translation units, `Unit`): used by the drivers of modules with class
   translation is of the program run without `-O`), the variable has the underlying type afterwards;
 * `None` and values of type `T` where `option T` is expected (`Some`), `range(a, b)`, `range(e)`
   with `e : Z` (empty when negative), `e.bit_length()` on `Z` (of the absolute value).
+
+Second extension (declarations of a `Unit`, used by `translator/entry_gen.py`; a unit that declares
+nothing translates exactly as before):
+
+* `Unit.opaque(name, coq, eqb=.., ltb=.., leb=..)`: a type of immutable values taken from a Coq
+  library, with the functions `== != < <= > >=` become; `Unit.constant(py, module, type, term,
+  neg=..)`: a name imported by `from module import py` (checked: bound exactly once, by that
+  import) is the term, `-py` the term `neg`; `Unit.external(py, module, args, ret, coq)`: an
+  imported function is the Coq function; `Unit.use_product()`: `itertools.product`;
+* `Unit.enum(name)`: `class name(Enum)` whose body is `<MEMBER> = auto()` lines -> an `Inductive`
+  and `<name>_eqb`; `name.MEMBER` is the constructor `name_MEMBER`, `==`/`!=` on two values of the
+  enum is `name_eqb` (anything else on an enum aborts);
+* `Unit.dataclass(DataSpec)`: `@dataclass(frozen=True)` with exactly the declared fields -> a
+  `Record`; `name(a, b)` with every field given positionally is `mk_name a b`, `x.field` the
+  projection (only on a value of the declared dataclass type);
+* type `set` (of elements): a duplicate-free `list A` in insertion order; `set()` = `nil`, `{e}` =
+  `cons e nil`, `s.add(e)` = `set_add e s` (append unless `set_mem`, which uses the section's
+  `eqb`), truthiness = non-emptiness, `for x in s` = list order (Python fixes none: the caller
+  states its theorem for every list).  A set variable may only be assigned `set()` or `{e}`;
+* `for x in xs` (list or set variable the loop does not modify, or the result of a reading method
+  call), `for a, b in product(xs, ys)`: two nested Fixpoints `.._in` (inner, over `ys`) and the
+  outer one, same state; `break` inside it aborts;
+* `a if c else b`; `if x [and c]:` with `x : option elem` when the unit declares elements truthy
+  (`truthy_elem`): a `match` on `x`, which is the element itself inside the branch (`c` is
+  evaluated only in the `Some` case, as Python's `and` does); an `if` whose test the declared
+  types decide (`p is None` for a parameter declared `none`, `isinstance(x, E)` for `x` declared
+  of the enum `E`, `and` of such) is replaced by the branch taken, the other is not translated;
+* methods (`extended` units): `*args` is one list parameter; a parameter `p=None` declared `none`
+  is omitted (every translated call omits it); a method with `ret="unit"` returns nothing
+  (`res (state * unit)`); `@overload` stubs before the definition and `<method>.__doc__ = <dotted
+  name>` lines in the class body are skipped; `FunSpec.pure` (checked: assigns no attribute,
+  calls no method of self) marks a method callable on any object in any expression;
+* objects of a translated class as values: a type named like the class; `C(args)` (fresh object,
+  only as the right-hand side of a local variable), `x.m(args)` as a statement (x a local; a
+  parameter only for a `pure` m), `x.m(args)` of a `pure` m inside expressions; a parameter of
+  function type `"T1 -> T2 -> T"` (a pure total function) may be called;
+* `Unit.begin_outside(insts)` + `Unit.method(cls, spec)`: a method translated after the Section is
+  closed, where classes and dataclasses take the element type as an argument; type names with a
+  suffix (`Entry2`, `Candidate2`, `elem2`) denote the instance at the second element type, calls
+  are emitted as `(@gen_m U eqb2)` (the equality only if the callee uses it: tracked).
 """
 from __future__ import annotations
 
@@ -103,6 +143,12 @@ Definition is_empty {X : Type} (l : list X) : bool := match l with nil => true |
 }
 HELPER_DEPS = {"nset": ["list_set"], "zget": ["zpos"], "zset": ["zpos", "list_set"]}
 PY_MIN = "Definition py_min (a b : A) : A := if ltb b a then b else a."
+SET_DEFS = """\
+(* a Python set of elements: a duplicate-free list in insertion order; s.add(x) appends x unless present *)
+Fixpoint set_mem (x : A) (s : list A) {struct s} : bool :=
+  match s with nil => false | cons y s' => orb (eqb x y) (set_mem x s') end.
+Definition set_add (x : A) (s : list A) : list A := if set_mem x s then s else s ++ cons x nil.
+"""
 
 BASE_TYPES = {"N": "N", "Z": "Z", "bool": "bool", "elem": "A"}
 COQ_TYPE = {"N": "N", "Z": "Z", "bool": "bool", "elem": "A", "list": "list A"}
@@ -110,7 +156,8 @@ RESERVED = set("""A N Z S O nat bool list unit tt true false nil cons app length
     Next Ret Fail Ok Err IndexError OutOfFuel res flow err Some None fun let in match with end if then else fix cofix
     forall exists Type Prop Set struct as at return using where mod IF _
     ltb option map seq repeat filter fst snd pair prod list_set nset zpos zget zset is_empty py_min self
-    AssertionError TypeError NegativePower left right inl inr conj exist existT eq_refl Lt Eq Gt I""".split())
+    AssertionError TypeError NegativePower left right inl inr conj exist existT eq_refl Lt Eq Gt I
+    set_mem set_add""".split())
 BINOPS = {ast.Add: "add", ast.Sub: "sub", ast.BitAnd: "land", ast.BitOr: "lor",
           ast.LShift: "shiftl", ast.RShift: "shiftr"}
 CMPOPS = {ast.Eq: ("eqb", False, False), ast.NotEq: ("eqb", False, True), ast.Lt: ("ltb", False, False),
@@ -120,8 +167,11 @@ FORBIDDEN_METHODS = ("__getattr__", "__getattribute__", "__setattr__", "__delatt
 
 
 # -------------------------------------------------------------------- types
-def norm_type(t: str) -> str:
-    """Canonical spelling of a declared type; raises ValueError when it is not one."""
+def norm_type(t: str, extra=()) -> str:
+    """Canonical spelling of a declared type; raises ValueError when it is not one.
+    `extra`: further base type names (declared by the translation unit)."""
+    if "->" in t:                            # type of a parameter that is a (pure, total) function
+        return " -> ".join(norm_type(p, extra) for p in t.split("->"))
     toks = t.replace("(", " ( ").replace(")", " ) ").split()
 
     def parse(i):
@@ -132,7 +182,7 @@ def norm_type(t: str) -> str:
             if i >= len(toks) or toks[i] != ")":
                 raise ValueError(t)
             return r, i + 1
-        if toks[i] in BASE_TYPES:
+        if toks[i] in BASE_TYPES or toks[i] in extra:
             return toks[i], i + 1
         if toks[i] in ("list", "option"):
             if i + 1 >= len(toks) or toks[i + 1] == ")":
@@ -167,11 +217,28 @@ def arg_of(t: str) -> str:
     return a[1:-1] if a.startswith("(") else a
 
 
-def coq_type(t: str) -> str:
+def coq_type(t: str, base=None) -> str:
+    if base and t in base:
+        return base[t]
+    if "->" in t:
+        return " -> ".join(coq_type(p.strip(), base) for p in t.split("->"))
     if t in COQ_TYPE:
         return COQ_TYPE[t]
-    a = coq_type(arg_of(t))
+    a = coq_type(arg_of(t), base)
     return f"{t.split(' ', 1)[0]} {a if ' ' not in a else '(' + a + ')'}"
+
+
+def inst_type(t: str, sfx: str, parametric) -> str:
+    """The declared type `t` of a class member, seen from the instance `sfx` of the class
+    (the names of `parametric` -- the element type and everything built on it -- get the suffix)."""
+    if not sfx:
+        return t
+    if t == "list":
+        return "list elem" + sfx
+    if is_list(t) or is_option(t):
+        a = inst_type(arg_of(t), sfx, parametric)
+        return f"{t.split(' ', 1)[0]} {a if ' ' not in a else '(' + a + ')'}"
+    return t + sfx if t in parametric else t
 
 
 @dataclass
@@ -182,6 +249,13 @@ class FunSpec:
     fuel: Dict[int, str] = field(default_factory=dict)  # n-th loop of the function (from 1) -> Coq `nat` term
     alias: Optional[str] = None           # name of the generated definition (default: the Python name)
     rec_fuel: Optional[str] = None        # fuel (Coq `nat` term over the parameters) of a self-recursive method
+    pure: bool = False                    # method that only reads its object (checked): callable on any object, anywhere
+
+
+@dataclass
+class DataSpec:
+    name: str                             # Python frozen dataclass -> Record `<name>`, constructor `mk_<name>`
+    fields: Dict[str, str]                # field -> declared type, in the order of the dataclass
 
 
 @dataclass
@@ -235,9 +309,17 @@ class _Fun:
             for f, t in cls.fields.items():
                 self.spec.types["self'" + f] = t
                 self.fieldvars.append("self'" + f)
-        self.R = coq_type(spec.ret) if spec.ret else None
+        self.uses_eqb = False                 # does the generated text depend on the section's `eqb`?
+        self.R = self.ct(spec.ret) if spec.ret else None
         if unit is not None:
             self.rename_reserved()
+
+    def ct(self, t: str) -> str:
+        return coq_type(t, self.unit.coq_base() if self.unit is not None else None)
+
+    def kind(self, t: str):
+        """(kind, declared name, instance suffix) of a type declared by the unit, else (None, t, '')."""
+        return self.unit.kind(t) if self.unit is not None else (None, t, "")
 
     def rename_reserved(self):
         """A Python variable whose name the generated text uses (`length`, `map`, ..) gets a `_` appended."""
@@ -279,7 +361,7 @@ class _Fun:
         return arg_of(t) if name + "!" in env else t
 
     def binder(self, node, name: str) -> str:
-        return f"({name} : {coq_type(self.ty(node, name))})"
+        return f"({name} : {self.ct(self.ty(node, name))})"
 
     def assigned(self, stmts) -> set:
         out = set()
@@ -292,6 +374,14 @@ class _Fun:
                 elif isinstance(n, ast.Call) and isinstance(n.func, ast.Attribute) and n.func.attr == "append" \
                         and _base_name(n.func.value):
                     out.add(_base_name(n.func.value))
+                elif self.unit is not None and isinstance(n, ast.Call) and isinstance(n.func, ast.Attribute) \
+                        and isinstance(n.func.value, ast.Name) and n.func.value.id != "self" \
+                        and n.func.value.id in self.spec.types \
+                        and (self.spec.types[n.func.value.id] == "set" and n.func.attr == "add"
+                             or self.kind(self.spec.types[n.func.value.id])[0] == "class"
+                             and not any(m.name == n.func.attr and m.pure for m in self.unit.done_methods.get(
+                                 self.kind(self.spec.types[n.func.value.id])[1], []))):
+                    out.add(n.func.value.id)     # s.add(e) on a set / a method call on an object
                 elif _is_self_call(n):
                     out.update(self.fieldvars)
         return out
@@ -348,6 +438,26 @@ class _Fun:
                 return "lit"
             if e.value is None:
                 return "none"
+        elif isinstance(e, ast.Name) and isinstance(e.ctx, ast.Load) and self.const_of(e) is not None:
+            return self.const_of(e)[0]
+        elif isinstance(e, ast.UnaryOp) and isinstance(e.op, ast.USub) and isinstance(e.operand, ast.Name) \
+                and self.const_of(e.operand) is not None and self.const_of(e.operand)[2]:
+            return self.const_of(e.operand)[0]
+        elif isinstance(e, ast.IfExp) and self.unit is not None:
+            a, b = self.ntype(e.body, env), self.ntype(e.orelse, env)
+            if a != b or a in ("lit", "none", "newlist", "newset") or a.startswith("new "):
+                self.abort(e, f"conditional expression with branches of type {a} and {b}")
+            return a
+        elif isinstance(e, ast.Attribute) and self.unit is not None and isinstance(e.ctx, ast.Load):
+            if self.enum_member(e):
+                return e.value.id
+            k, name, sfx = self.kind(self.ntype(e.value, env))
+            if k == "data" and e.attr in self.unit.datas[name].fields:
+                return inst_type(self.unit.datas[name].fields[e.attr], sfx, self.unit.parametric())
+            self.abort(e, "attribute access other than <enum>.<member> or <dataclass value>.<declared field>")
+        elif isinstance(e, ast.Set) and self.unit is not None and len(e.elts) == 1 \
+                and not isinstance(e.elts[0], ast.Starred):
+            return "newset"
         elif isinstance(e, ast.Name) and isinstance(e.ctx, ast.Load):
             t = self.vtype(e, e.id, env)
             if e.id not in env:
@@ -387,10 +497,88 @@ class _Fun:
                 return self.ntype(k[2], env)
         self.abort(e, f"expression outside the handled subset: {ast.dump(e)[:80]}")
 
+    def const_of(self, e):
+        """(type, term, negated term or None) when the name `e` is a constant declared by the unit."""
+        if self.unit is None or e.id in self.spec.types or e.id not in self.unit.constants:
+            return None
+        return self.unit.constants[e.id]
+
+    def enum_member(self, e) -> bool:
+        return isinstance(e.value, ast.Name) and e.value.id in self.unit.enums and e.value.id not in self.spec.types \
+            and e.attr in self.unit.enums[e.value.id]
+
+    def obj_call(self, e, env):
+        """(receiver name, class spec, instance suffix, method spec) when `e` is `x.m(..)`, x a variable
+        holding an object of a translated class and m one of its translated methods; else None."""
+        f = e.func
+        if self.unit is None or not (isinstance(f, ast.Attribute) and isinstance(f.value, ast.Name)) \
+                or f.value.id == "self" or f.value.id not in self.spec.types:
+            return None
+        k, name, sfx = self.kind(self.spec.types[f.value.id])
+        if k != "class":
+            return None
+        cls = self.unit.classes[name]
+        done = self.unit.done_methods.get(name, [])
+        m = next((m for m in done if m.name == f.attr), None)
+        if m is None:
+            self.abort(e, f"call of {f.attr!r}, which is not a method of {name} translated before this one")
+        return f.value.id, cls, sfx, m
+
+    def narrowing(self, test, env):
+        """(x, rest of the test or None) when `test` is `x` or `x and ..`, x a variable holding an optional
+        element (not narrowed yet) and the unit declares elements truthy; else None."""
+        if self.unit is None or not self.unit.truthy_elem:
+            return None
+        first, cond = test, None
+        if isinstance(test, ast.BoolOp) and isinstance(test.op, ast.And):
+            first, others = test.values[0], test.values[1:]
+            cond = others[0] if len(others) == 1 else ast.copy_location(ast.BoolOp(op=ast.And(), values=others), test)
+        if isinstance(first, ast.Name) and first.id in env and first.id + "!" not in env and first.id in self.spec.types:
+            t = self.spec.types[first.id]
+            if is_option(t) and self.kind(arg_of(t))[0] == "elem":
+                return first.id, cond
+        return None
+
+    def static_bool(self, e, env) -> Optional[bool]:
+        """Value of a test that the declared types alone decide (None: they do not)."""
+        if self.unit is None:
+            return None
+        if isinstance(e, ast.Compare) and len(e.ops) == 1 and isinstance(e.ops[0], (ast.Is, ast.IsNot)) \
+                and isinstance(e.left, ast.Name) and isinstance(e.comparators[0], ast.Constant) \
+                and e.comparators[0].value is None and self.spec.types.get(e.left.id) == "none":
+            return isinstance(e.ops[0], ast.Is)
+        if isinstance(e, ast.Call) and isinstance(e.func, ast.Name) and e.func.id == "isinstance" and len(e.args) == 2 \
+                and not e.keywords and "isinstance" not in self.spec.types \
+                and isinstance(e.args[0], ast.Name) and isinstance(e.args[1], ast.Name) \
+                and e.args[1].id in self.unit.enums and e.args[1].id not in self.spec.types \
+                and e.args[0].id in env and self.spec.types.get(e.args[0].id) == e.args[1].id:
+            return True
+        if isinstance(e, ast.BoolOp) and isinstance(e.op, ast.And):
+            vals = [self.static_bool(v, env) for v in e.values]
+            if all(v is True for v in vals):
+                return True
+            if all(v is not None for v in vals):
+                return False
+        return None
+
     def call_type(self, e, env) -> str:
         f = e.func
         if e.keywords:
             self.abort(e, "call with keyword arguments")
+        if self.unit is not None and isinstance(f, ast.Name) and f.id not in self.spec.types:
+            if f.id == "set" and not e.args:
+                return "newset"
+            if f.id in self.unit.externals and f.id not in self.unit.functions:
+                return self.unit.externals[f.id][1]
+            if f.id in self.unit.datas or f.id in self.unit.classes:
+                return "new " + f.id
+        if self.unit is not None and isinstance(f, ast.Name) and "->" in self.spec.types.get(f.id, ""):
+            return self.spec.types[f.id].split("->")[-1].strip()
+        oc = self.obj_call(e, env)
+        if oc is not None:
+            if not oc[3].ret:
+                self.abort(e, "call of a method that returns nothing, used as a value")
+            return inst_type(oc[3].ret, oc[2], self.unit.parametric())
         if isinstance(f, ast.Name) and f.id == "len" or isinstance(f, ast.Attribute) and f.attr == "bit_length":
             return "N"
         if isinstance(f, ast.Name) and f.id == "min" and len(e.args) == 2:
@@ -417,6 +605,17 @@ class _Fun:
         if want == "bool" and is_list(t):                     # truthiness of a list
             self.need("is_empty")
             return f"(negb (is_empty {self.raw(e, t, env, hoist)}))"
+        if want == "bool" and self.kind(t)[0] == "set":      # truthiness of a set
+            self.need("is_empty")
+            return f"(negb (is_empty {self.raw(e, t, env, hoist)}))"
+        if t == "newset":
+            if self.kind(want)[0] != "set":
+                self.abort(e, f"set display where a value of type {want} is expected")
+            return self.raw(e, want, env, hoist)
+        if t.startswith("new "):
+            if self.kind(want)[:2] != (("data" if t[4:] in self.unit.datas else "class"), t[4:]):
+                self.abort(e, f"construction of a {t[4:]} where a value of type {want} is expected")
+            return self.raw(e, want, env, hoist)
         if t == "none":
             if not is_option(want):
                 self.abort(e, f"None where a value of type {want} is expected")
@@ -447,7 +646,23 @@ class _Fun:
                 self.abort(e, "literal outside the handled subset")
             return f"{e.value}%{t}"
         if isinstance(e, ast.Name):
-            return e.id
+            return e.id if self.const_of(e) is None else self.const_of(e)[1]
+        if isinstance(e, ast.UnaryOp) and isinstance(e.op, ast.USub) and isinstance(e.operand, ast.Name):
+            return self.const_of(e.operand)[2]
+        if isinstance(e, ast.IfExp):
+            sub: list = []
+            c = self.expr(e.test, "bool", env, sub)
+            a, b = self.expr(e.body, t, env, sub), self.expr(e.orelse, t, env, sub)
+            if sub:
+                self.abort(e, "conditional expression with a part that can raise")
+            return f"(if {c} then {a} else {b})"
+        if isinstance(e, ast.Attribute):
+            if self.enum_member(e):
+                return f"{e.value.id}_{e.attr}"
+            vt = self.ntype(e.value, env)
+            return f"({self.kind(vt)[1]}_{e.attr} {self.raw(e.value, vt, env, hoist)})"
+        if isinstance(e, ast.Set):
+            return f"(cons {self.expr(e.elts[0], 'elem' + self.kind(t)[2], env, hoist)} nil)"
         if isinstance(e, ast.UnaryOp) and isinstance(e.op, ast.USub):
             return f"(-{e.operand.value})%Z"
         if isinstance(e, ast.UnaryOp):
@@ -483,6 +698,14 @@ class _Fun:
             lt, rt = self.ntype(e.left, env), self.ntype(e.comparators[0], env)
             if lt == rt == "elem" and fn == "eqb":
                 a, b, f = self.expr(e.left, "elem", env, hoist), self.expr(e.comparators[0], "elem", env, hoist), "eqb"
+                self.uses_eqb = True
+            elif lt == rt and self.kind(lt)[0] == "opaque":
+                f = self.unit.opaques[lt][1].get(fn)      # the comparison functions declared for the type
+                if f is None:
+                    self.abort(e, f"comparison {fn} on values of type {lt}")
+                a, b = self.expr(e.left, lt, env, hoist), self.expr(e.comparators[0], lt, env, hoist)
+            elif lt == rt and self.kind(lt)[0] == "enum" and fn == "eqb":
+                a, b, f = self.expr(e.left, lt, env, hoist), self.expr(e.comparators[0], lt, env, hoist), lt + "_eqb"
             else:
                 ct = self.join(e, lt, rt)
                 ct = "Z" if ct == "lit" else ct
@@ -517,7 +740,7 @@ class _Fun:
                 self.abort(e, "only xs[i] with xs a declared sequence variable is handled")
             return self.index(e, seq, e.slice, env, hoist)
         if isinstance(e, ast.List):
-            return "(@nil A)" if t == "list" else f"(@nil ({coq_type(arg_of(t))}))"
+            return "(@nil A)" if t == "list" else f"(@nil ({self.ct(arg_of(t))}))"
         if isinstance(e, ast.ListComp):
             k = self.comp_kind(e)
             if k[0] == "repeat":
@@ -581,6 +804,46 @@ class _Fun:
             return f"(N.size {self.raw(f.value, 'N', env, hoist)})"
         if self.unit is None:
             self.abort(e, "call outside the handled subset (len(xs), e.bit_length())")
+        if isinstance(f, ast.Name) and f.id not in self.spec.types:
+            if f.id == "set" and not e.args:
+                return f"(@nil ({self.ct('elem' + self.kind(t)[2])}))"
+            if f.id in self.unit.externals and f.id not in self.unit.functions:
+                argts, _, coq = self.unit.externals[f.id]
+                if len(argts) != len(e.args):
+                    self.abort(e, f"{f.id}() called with {len(e.args)} arguments")
+                return "(" + " ".join([coq] + [self.expr(a, at, env, hoist) for a, at in zip(e.args, argts)]) + ")"
+            if f.id in self.unit.datas:
+                d, sfx = self.unit.datas[f.id], self.kind(t)[2]
+                if len(e.args) != len(d.fields) or any(isinstance(a, ast.Starred) for a in e.args):
+                    self.abort(e, f"{f.id}(..) is only translated with every field given as a positional argument")
+                args = [self.expr(a, inst_type(ft, sfx, self.unit.parametric()), env, hoist)
+                        for a, ft in zip(e.args, d.fields.values())]
+                return f"(mk_{f.id} {' '.join(args)})"
+            if f.id in self.unit.classes:
+                cls, sfx = self.unit.classes[f.id], self.kind(t)[2]
+                init = next((m for m in self.unit.done_methods.get(f.id, []) if m.name == "__init__"), None)
+                if init is None:
+                    self.abort(e, f"construction of a {f.id}, whose __init__ is not translated before this function")
+                args = self.method_args(e, cls, init, sfx, env, hoist)
+                self.nt += 1
+                hoist.append(("call", f"t'{self.nt}", " ".join([self.callee(e, cls, init, sfx)] + args)))
+                return f"t'{self.nt}"
+        if isinstance(f, ast.Name) and "->" in self.spec.types.get(f.id, ""):
+            parts = [p.strip() for p in self.spec.types[f.id].split("->")]
+            if f.id not in env or f.id not in self.params or len(parts) - 1 != len(e.args):
+                self.abort(e, f"call of the function parameter {f.id!r} with {len(e.args)} arguments")
+            return "(" + " ".join([f.id] + [self.expr(a, at, env, hoist) for a, at in zip(e.args, parts)]) + ")"
+        oc = self.obj_call(e, env)
+        if oc is not None:
+            x, cls, sfx, m = oc
+            if not m.pure:
+                self.abort(e, f"{x}.{m.name}(..) may modify {x}: only translated as a statement of its own")
+            if x not in env:
+                self.abort(e, f"variable {x!r} is not definitely assigned here")
+            args = self.method_args(e, cls, m, sfx, env, hoist)
+            self.nt += 1
+            hoist.append(("call", f"(_, t'{self.nt})", " ".join([self.callee(e, cls, m, sfx), x] + args)))
+            return f"t'{self.nt}"
         if isinstance(f, ast.Name) and f.id == "min" and len(e.args) == 2:
             if not self.unit.elem_lt:
                 self.abort(e, "min() needs the unit's element order")
@@ -647,14 +910,58 @@ class _Fun:
                 if any(_is_self_call(n) for n in ast.walk(a)):
                     self.abort(e, "method call inside the arguments of a method call")
                 args.append(self.expr(a, callee.types[p], env, hoist))
-            name = self.prefix + (callee.alias or callee.name)
+            name = self.callee(e, self.cls, callee, "")
             if rec:
+                if self.unit.outside:
+                    self.abort(e, "recursive method translated outside the section of its class")
                 self.in_rec = True
                 name += "_rec fuel''"
             self.nt += 1
             hoist.append(("call", f"({self.state(e)}, t'{self.nt})", " ".join([name, self.state(e)] + args)))
             return f"t'{self.nt}"
         self.abort(e, "call outside the handled subset")
+
+    def callee(self, node, cls: ClassSpec, m: FunSpec, sfx: str) -> str:
+        """Head of a call of the generated method `m` of `cls`, for the instance `sfx` of the class."""
+        name = self.prefix + (m.alias or m.name)
+        dep = self.unit.method_uses_eqb.get((cls.name, m.name), False)
+        if not self.unit.outside:
+            if sfx:
+                self.abort(node, "a second instance of the class inside the section of the class")
+            self.uses_eqb = self.uses_eqb or dep
+            return name
+        if not self.unit.cls_parametric(cls):
+            self.abort(node, f"instance of {cls.name}, which does not depend on the element type")
+        a, eq = self.unit.insts[sfx]
+        if dep and eq is None:
+            self.abort(node, f"{cls.name}.{m.name} compares elements, and no equality is declared for this instance")
+        return f"(@{name} {a}{' ' + eq if dep else ''})"
+
+    def method_args(self, e, cls: ClassSpec, m: FunSpec, sfx: str, env, hoist) -> List[str]:
+        """Argument terms of the call `e` of method `m` (`*args` of the callee: one list)."""
+        params = self.unit.params[(cls.name, m.name)]
+        var = self.unit.varargs.get((cls.name, m.name))
+        par = self.unit.parametric()
+        if any(isinstance(a, ast.Starred) for a in e.args) or e.keywords:
+            self.abort(e, "call with starred or keyword arguments")
+        if len(e.args) < len(params) or (var is None and len(e.args) != len(params)):
+            self.abort(e, f"{m.name}() called with {len(e.args)} arguments")
+        args = []
+        for a, p in zip(e.args, params):
+            pt = inst_type(m.types[p], sfx, par)
+            if is_list(pt) or self.kind(pt)[0] in ("set", "class"):
+                self.abort(e, "mutable argument (list, set, object) to a method")
+            if any(_is_self_call(n) for n in ast.walk(a)):
+                self.abort(e, "method call inside the arguments of a method call")
+            args.append(self.expr(a, pt, env, hoist))
+        if var is not None:
+            et = inst_type(arg_of(m.types[var]), sfx, par)
+            items = [self.expr(a, et, env, hoist) for a in e.args[len(params):]]     # evaluated left to right
+            out = "nil" if items else f"(@nil ({self.ct(et)}))"
+            for item in reversed(items):
+                out = f"(cons {item} {out})"
+            args.append(out)
+        return args
 
     def hoisted(self, hoist, lines: List[str], ctx: _Ctx) -> List[str]:
         for h in reversed(hoist):
@@ -758,12 +1065,14 @@ class _Fun:
         if isinstance(s, (ast.Return, ast.Break)) and rest:
             self.abort(rest[0], "statement after return/break")
         if isinstance(s, ast.Return):
-            if s.value is None or not self.spec.ret:
+            if s.value is None and self.spec.ret == "unit":
+                return [ctx.ret("tt")]
+            if s.value is None or not self.spec.ret or self.spec.ret == "unit":
                 self.abort(s, "return without a value")
             return self.hoisted(h, [ctx.ret(self.expr(s.value, self.spec.ret, env, h))], ctx)
         if isinstance(s, ast.Break):
             if ctx.brk is None:
-                self.abort(s, "break outside a loop")
+                self.abort(s, "break outside a loop (or in a loop over product(..))")
             return [ctx.brk]
         if isinstance(s, ast.Pass) or (isinstance(s, ast.Expr) and isinstance(s.value, ast.Constant)
                                        and isinstance(s.value.value, str) and s is self.fn.body[0]):
@@ -780,6 +1089,33 @@ class _Fun:
             self.need("AssertionError")
             return [f"match {x} with", f"| None => {ctx.fail('AssertionError')}", f"| Some {x} =>"] \
                 + _ind(self.block(rest, env + [x + "!"], ctx)) + ["end"]
+        if isinstance(s, ast.Expr) and self.unit is not None and isinstance(s.value, ast.Call) \
+                and isinstance(s.value.func, ast.Attribute) and isinstance(s.value.func.value, ast.Name) \
+                and s.value.func.value.id != "self" and not s.value.keywords:
+            c, x = s.value, s.value.func.value.id
+            xt = self.spec.types.get(x, "")
+            if self.kind(xt)[0] == "set" and c.func.attr == "add" and len(c.args) == 1:
+                # s.add(e): append unless present (the set is a duplicate-free list in insertion order)
+                if x not in env or x in self.params:
+                    self.abort(s, "add is only handled on a local or attribute set (a parameter would be mutated for the caller)")
+                sfx = self.kind(xt)[2]
+                if sfx or self.unit.outside:
+                    self.abort(s, "set.add outside the section of the element equality")
+                self.need("set_add")
+                self.uses_eqb = True
+                term = f"(set_add {self.expr(c.args[0], 'elem', env, h)} {x})"
+                return self.hoisted(h, [f"let {x} := {term} in"] + self.block(rest, env, ctx), ctx)
+            oc = self.obj_call(c, env)
+            if oc is not None:
+                _, cls, sfx, m = oc
+                if x not in env:
+                    self.abort(s, f"variable {x!r} is not definitely assigned here")
+                if x in self.params and not m.pure:
+                    self.abort(s, f"{x}.{m.name}(..) on a parameter (it would be mutated for the caller)")
+                args = self.method_args(c, cls, m, sfx, env, h)
+                call = " ".join([self.callee(s, cls, m, sfx), x] + args)
+                return self.hoisted(h, [f"match {call} with", "| Err e' => " + ctx.fail("e'"),
+                                        f"| Ok ({'_' if m.pure else x}, _) =>"] + _ind(self.block(rest, env, ctx)) + ["end"], ctx)
         if isinstance(s, ast.Expr):
             c = s.value
             if not (isinstance(c, ast.Call) and isinstance(c.func, ast.Attribute) and c.func.attr == "append"
@@ -843,6 +1179,14 @@ class _Fun:
                     self.abort(s, "a sequence variable may only be assigned a freshly built list (anything else could alias another list)")
                 if x in self.fieldvars and self.fn.name != "__init__":
                     self.abort(s, "a list attribute may only be rebound in __init__")
+            elif self.kind(xt)[0] == "set":
+                if self.ntype(s.value, env) != "newset":
+                    self.abort(s, "a set variable may only be assigned set() or {e} (anything else could alias another set)")
+            elif self.kind(xt)[0] == "class":
+                if not self.ntype(s.value, env).startswith("new ") or x in self.fieldvars:
+                    self.abort(s, "an object variable may only be a local assigned a newly constructed object")
+            elif xt == "none" or "->" in xt:
+                self.abort(s, f"assignment to {x!r}, declared as an omitted parameter / a function")
             term = self.expr(s.value, xt, env, h)
             env2 = [v for v in env if v != x + "!"]
             return self.hoisted(h, [f"let {x} := {term} in"] + self.block(rest, env2 + [x] * (x not in env2), ctx), ctx)
@@ -866,8 +1210,16 @@ class _Fun:
             load = ast.copy_location(ast.Name(id=x, ctx=ast.Load()), s)
             term = self.expr(ast.copy_location(ast.BinOp(left=load, op=s.op, right=s.value), s), self.ty(s, x), env, h)
             return self.hoisted(h, [f"let {x} := {term} in"] + self.block(rest, env, ctx), ctx)
+        if isinstance(s, ast.If) and self.static_bool(s.test, env) is not None:
+            # the declared types decide the test: the other branch can never run and is not translated
+            sb = self.static_bool(s.test, env)
+            return [f"(* line {s.lineno}: the declared types make this test {'true' if sb else 'false'} *)"] \
+                + self.block((s.body if sb else s.orelse) + rest, env, ctx)
         if isinstance(s, ast.If):
             inner, lines = ctx, []
+            nar = self.narrowing(s.test, env)
+            if nar is not None and nar[0] in self.assigned(s.body + s.orelse):
+                self.abort(s, f"{nar[0]!r} is tested for truth and assigned in a branch")
             if rest:
                 mod = [v for v in env if v in self.assigned(s.body + s.orelse)]
                 if any(v + "!" in env for v in mod):
@@ -878,6 +1230,20 @@ class _Fun:
                     + _ind(self.block(rest, env, ctx)) + ["in"]
                 inner = replace(ctx, fall=f"{k} {' '.join(mod) or 'tt'}")
                 self.mark_calls(s)
+            if nar is not None:
+                # `if x [and c]` with x an optional element: truthy exactly when it is not None (the unit
+                # declares that elements are truthy); x is the element itself inside the branch
+                x, cond = nar
+                els = self.block(s.orelse, env, inner)
+                benv = env + [x + "!"]
+                body = self.block(s.body, benv, inner)
+                if cond is not None:
+                    sub: list = []
+                    c = self.expr(cond, "bool", benv, sub)
+                    if sub:
+                        self.abort(s, "test that can raise after a truth test of an optional value")
+                    body = [f"if {c} then ("] + _ind(body) + [") else ("] + _ind(els) + [")"]
+                return lines + [f"match {x} with", f"| Some {x} =>"] + _ind(body) + ["| None =>"] + _ind(els) + ["end"]
             test = self.expr(s.test, "bool", env, h)
             return lines + self.hoisted(h, [f"if {test} then ("] + _ind(self.block(s.body, env, inner)) + [") else ("]
                                         + _ind(self.block(s.orelse, env, inner)) + [")"], ctx)
@@ -895,7 +1261,16 @@ class _Fun:
         self.nloop += 1
         n = self.nloop
         targets: List[str] = []
-        if isinstance(s, ast.For):
+        if isinstance(s, ast.For) and self.unit is not None and isinstance(s.target, ast.Name) \
+                and (isinstance(s.iter, ast.Name) or isinstance(s.iter, ast.Call) and self.obj_call(s.iter, env) is not None):
+            it, kind, targets = s.iter, "each", [s.target.id]
+        elif isinstance(s, ast.For) and self.unit is not None and isinstance(s.iter, ast.Call) \
+                and isinstance(s.iter.func, ast.Name) and s.iter.func.id == "product" and "product" in self.unit.builtins \
+                and "product" not in self.spec.types and len(s.iter.args) == 2 and not s.iter.keywords \
+                and isinstance(s.target, ast.Tuple) and len(s.target.elts) == 2 \
+                and all(isinstance(x, ast.Name) for x in s.target.elts):
+            it, kind, targets = s.iter, "product", [x.id for x in s.target.elts]
+        elif isinstance(s, ast.For):
             it = s.iter
             nargs = (1, 2) if self.unit is not None else (1,)
             if not (isinstance(it, ast.Call) and isinstance(it.func, ast.Name) and len(it.args) in nargs and not it.keywords):
@@ -924,7 +1299,7 @@ class _Fun:
             self.abort(s, "recursive call inside a loop")
         name = f"{self.prefix}{self.spec.alias or self.fn.name}_{'while' if kind == 'while' else 'for'}{n}"
         tup = "tt" if not state else state[0] if len(state) == 1 else "(" + ", ".join(state) + ")"
-        sty = " * ".join(coq_type(self.ty(s, v)) for v in state) or "unit"
+        sty = " * ".join(self.ct(self.ty(s, v)) for v in state) or "unit"
         ctx = _Ctx(ret=lambda e: f"Ret {self.pack(e)}", fail=lambda e: f"Fail {e}", fall=None, brk=f"Next {tup}",
                    retp=lambda e: f"Ret {e}")
         args = lambda mid: " ".join([name] + ro + mid + state)
@@ -941,10 +1316,43 @@ class _Fun:
                 self.abort(s, "enumerate() targets must be declared (N, elem)")
             ctx.fall = args(["it''", "(N.succ idx')"])
             body = self.block(s.body, inner_env + targets, ctx)
-            fix = [sig(f"(it' : {coq_type(self.ntype(it.args[0], env))}) (idx' : N)", "it'"), "  match it' with",
+            fix = [sig(f"(it' : {self.ct(self.ntype(it.args[0], env))}) (idx' : N)", "it'"), "  match it' with",
                    f"  | nil => Next {tup}",
                    f"  | cons {targets[1]} it'' =>", f"    let {targets[0]} := idx' in"] + _ind(_ind(body)) + ["  end."]
             call = args([seq, "0%N"])
+        elif kind == "each":
+            term, cty, et = self.iterable(s, it, env, h, mutated)
+            if self.ty(s, targets[0]) != et:
+                self.abort(s, f"the loop variable must be declared {et}")
+            ctx.fall = args(["it''"])
+            body = self.block(s.body, inner_env + targets, ctx)
+            fix = [sig(f"(it' : {cty})", "it'"), "  match it' with", f"  | nil => Next {tup}",
+                   f"  | cons {targets[0]} it'' =>"] + _ind(_ind(body)) + ["  end."]
+            call = args([term])
+        elif kind == "product":
+            # one Python loop over all pairs, in the order of itertools.product: two nested Fixpoints
+            (term1, cty1, et1), (term2, cty2, et2) = [self.iterable(s, a, env, h, mutated) for a in it.args]
+            if self.ty(s, targets[0]) != et1 or self.ty(s, targets[1]) != et2:
+                self.abort(s, f"the loop variables must be declared ({et1}, {et2})")
+            ctx.brk = None                    # a break would have to leave both Fixpoints
+            inner = name + "_in"
+            ctx.fall = " ".join([inner] + ro + [targets[0], "it2''"] + state)
+            body = self.block(s.body, inner_env + targets, ctx)
+            flow_t = f"flow ({sty}) ({self.RR})"
+            robs, stbs = [self.binder(s, v) for v in ro], [self.binder(s, v) for v in state]
+            self.fixpoints.append("\n".join(
+                [" ".join([f"Fixpoint {inner}"] + robs + [self.binder(s, targets[0]), f"(it2' : {cty2})"] + stbs
+                          + [f"{{struct it2'}} : {flow_t} :="]),
+                 "  match it2' with", f"  | nil => Next {tup}", f"  | cons {targets[1]} it2'' =>"]
+                + _ind(_ind(body)) + ["  end."]))
+            pat = "_" if not state else tup
+            fix = [" ".join([f"Fixpoint {name}"] + robs + [f"(it1' : {cty1})", f"(ys' : {cty2})"] + stbs
+                            + [f"{{struct it1'}} : {flow_t} :="]),
+                   "  match it1' with", f"  | nil => Next {tup}", f"  | cons {targets[0]} it1'' =>",
+                   "    match " + " ".join([inner] + ro + [targets[0], "ys'"] + state) + " with",
+                   f"    | Next {pat} => " + " ".join([name] + ro + ["it1''", "ys'"] + state),
+                   "    | Ret r' => Ret r'", "    | Fail e' => Fail e'", "    end", "  end."]
+            call = args([term1, term2])
         elif kind == "range" and len(it.args) == 1:
             if self.ntype(it.args[0], env) not in (("N", "lit") if self.unit is None else ("N", "lit", "Z")):
                 self.abort(s, "range(e) is only translated for e of declared type N")
@@ -987,6 +1395,22 @@ class _Fun:
         self.fixpoints.append("\n".join(fix))
         return call, state
 
+    def iterable(self, s, a, env, h, mutated):
+        """(term, Coq type, element type) of the list or set `a` a loop iterates (in list order)."""
+        t = self.ntype(a, env)
+        if is_list(t):
+            et = arg_of(t)
+        elif self.kind(t)[0] == "set":
+            et = "elem" + self.kind(t)[2]
+        else:
+            self.abort(s, f"iteration over a value of type {t}")
+        if isinstance(a, ast.Name):
+            if a.id in mutated:
+                self.abort(s, "the loop modifies the sequence it iterates")
+        elif not (isinstance(a, ast.Call) and self.obj_call(a, env) and self.obj_call(a, env)[0] not in mutated):
+            self.abort(s, "iteration over something other than a variable or a reading method call on an object the loop leaves alone")
+        return self.expr(a, t, env, h), self.ct(t), et
+
     def pack(self, e: str) -> str:
         """The value a `return e` hands back: for a method, together with the state of the object."""
         return e if self.cls is None else f"({self.state(self.fn)}, {e})"
@@ -995,9 +1419,23 @@ class _Fun:
         fn, a = self.fn, self.fn.args
         if fn.decorator_list:
             self.abort(fn, "decorated function")
-        if a.posonlyargs or a.vararg or a.kwonlyargs or a.kwarg or a.defaults or a.kw_defaults:
+        ext = self.unit is not None and self.cls is not None      # *args / omitted defaulted parameters: methods of a unit
+        if a.posonlyargs or a.kwonlyargs or a.kwarg or a.kw_defaults or ((a.vararg or a.defaults) and not ext):
             self.abort(fn, "only plain positional parameters without defaults are handled")
         self.params = [x.arg for x in a.args]
+        for x, d in zip(a.args[len(a.args) - len(a.defaults):], a.defaults):
+            # a parameter with the default None that every translated call omits is the constant None
+            if not (isinstance(d, ast.Constant) and d.value is None and self.spec.types.get(x.arg) == "none"):
+                self.abort(x, f"parameter {x.arg!r} has a default value: only '= None' on a parameter declared 'none' "
+                              "(omitted by every call) is handled")
+            self.params.remove(x.arg)
+        self.absent = [x.arg for x in a.args if x.arg not in self.params]
+        if any(t == "none" and v not in self.absent for v, t in self.spec.types.items()):
+            self.abort(fn, "the type 'none' is only for a parameter with the default None")
+        if a.vararg:
+            if not is_list(self.spec.types.get(a.vararg.arg, "")):
+                self.abort(fn, f"*{a.vararg.arg} must be declared with a list type")
+            self.params.append(a.vararg.arg)
         if len(set(self.params)) != len(self.params):
             self.abort(fn, "duplicate parameter")
         self.RR = self.R
@@ -1015,7 +1453,7 @@ class _Fun:
         if not self.params or self.params[0] != "self":
             self.abort(fn, "method whose first parameter is not 'self'")
         self.params = self.params[1:]
-        st = f"{cls.short}_state"
+        st = self.ct(cls.name) if cls.name in self.unit.classes else f"{cls.short}_state"
         init = fn.name == "__init__"
         if init != (not self.spec.ret):
             self.abort(fn, "exactly __init__ returns nothing")
@@ -1033,9 +1471,13 @@ class _Fun:
             if missing:
                 self.abort(fn, f"__init__ does not assign {missing[0].replace(chr(39), '.')} on every path at top level")
             return f"Ok {self.state(fn)}"
-        ctx = _Ctx(ret=lambda e: f"Ok {self.pack(e)}", fail=lambda e: f"Err {e}", fall=fall if init else None,
-                   retp=lambda e: f"Ok {e}")
-        body = self.block(fn.body, list(self.params) + ([] if init else self.fieldvars), ctx)
+        if self.spec.pure and (init or set(self.assigned(fn.body)) & set(self.fieldvars)):
+            self.abort(fn, "method declared as only reading its object, but it assigns an attribute or calls a method of self")
+        if self.spec.ret == "unit":            # a method that returns nothing
+            fall = lambda env: f"Ok {self.pack('tt')}"
+        ctx = _Ctx(ret=lambda e: f"Ok {self.pack(e)}", fail=lambda e: f"Err {e}",
+                   fall=fall if init or self.spec.ret == "unit" else None, retp=lambda e: f"Ok {e}")
+        body = self.block(fn.body, list(self.params) + self.absent + ([] if init else self.fieldvars), ctx)
         if init:
             return head + "\n\n".join(self.fixpoints + [
                 f"Definition {name}{' ' * bool(binders)}{binders} : res ({self.RR}) :=\n" + "\n".join(_ind(body)) + "."])
@@ -1089,23 +1531,180 @@ class Unit:
     """One generated file: functions and classes of one Python module, translated in the order
     given (a callee before its callers), plus the prelude with exactly the errors/helpers used."""
 
-    def __init__(self, path: Path, tree: ast.Module, prefix: str = "gen_", elem_lt: bool = False):
+    def __init__(self, path: Path, tree: ast.Module, prefix: str = "gen_", elem_lt: bool = False,
+                 truthy_elem: bool = False, extended: bool = False):
         self.path, self.tree, self.prefix, self.elem_lt = path, tree, prefix, elem_lt
         self.functions: Dict[str, FunSpec] = {}
         self.params: Dict[object, List[str]] = {}
         self.done_methods: Dict[str, List[FunSpec]] = {}
         self.errors: set = set()
         self.helpers: set = set()
+        # declarations of the unit (all empty for the units that use none of this)
+        self.extended = extended               # classes are declared types; typing stubs and docstring assignments are skipped
+        self.truthy_elem = truthy_elem         # assumption: every element is truthy (`if x` on an optional element)
+        self.opaques: Dict[str, tuple] = {}    # type name -> (Coq type, {"eqb"/"ltb"/"leb": Coq function})
+        self.constants: Dict[str, tuple] = {}  # imported Python name -> (type, Coq term, Coq term of its negation or None)
+        self.externals: Dict[str, tuple] = {}  # imported Python function -> (argument types, result type, Coq function)
+        self.builtins: set = set()             # {"product"} once `from itertools import product` is verified
+        self.enums: Dict[str, List[str]] = {}
+        self.datas: Dict[str, DataSpec] = {}
+        self.classes: Dict[str, ClassSpec] = {}
+        self.varargs: Dict[object, str] = {}
+        self.method_uses_eqb: Dict[object, bool] = {}
+        self.outside = False                   # translating after the Section of the classes was closed
+        self.insts: Dict[str, tuple] = {"": ("A", "eqb")}   # type-name suffix -> (element type, its equality or None)
+
+    # ------------------------------------------------------------ declared types
+    def parametric(self) -> set:
+        """Type names that depend on the element type."""
+        return {"elem", "set"} | set(self.datas) | set(self.classes)
+
+    def extra_names(self) -> set:
+        base = set(self.opaques) | set(self.enums) | {"unit", "none"}
+        return base | {p + s for p in self.parametric() for s in self.insts}
+
+    def kind(self, t: str):
+        if t in self.opaques:
+            return "opaque", t, ""
+        if t in self.enums:
+            return "enum", t, ""
+        for sfx in sorted(self.insts, key=len, reverse=True):
+            b = t[:len(t) - len(sfx)] if sfx else t
+            if t.endswith(sfx) and b in self.parametric():
+                k = "data" if b in self.datas else "class" if b in self.classes else b
+                return k, b, sfx
+        return None, t, ""
+
+    def coq_base(self) -> Dict[str, str]:
+        base = {k: v[0] for k, v in self.opaques.items()}
+        base.update({k: k for k in self.enums})
+        base["unit"] = "unit"
+        for sfx, (a, _) in self.insts.items():
+            arg = " " + a if self.outside else ""
+            base["elem" + sfx] = a
+            base["set" + sfx] = f"list {a}"
+            for d in self.datas:
+                base[d + sfx] = d + arg
+            for c, spec in self.classes.items():
+                base[c + sfx] = f"{spec.short}_state{arg}"
+        if not self.opaques and not self.enums and not self.datas and not self.classes and not self.outside:
+            return {}
+        return base
+
+    def cls_parametric(self, cls: ClassSpec) -> bool:
+        """Does the Record of `cls` depend on the element type (so that it takes it as an argument outside the Section)?"""
+        for t in cls.fields.values():
+            toks = t.replace("(", " ( ").replace(")", " ) ").split()
+            for i, w in enumerate(toks):
+                if w in self.parametric() or w == "list" and (i + 1 == len(toks) or toks[i + 1] == ")"):
+                    return True
+        return False
+
+    def imported(self, name: str, module: str):
+        """Abort unless `name` is bound at module level exactly by `from <module> import <name>`."""
+        binds = []
+        for n in self.tree.body:
+            if isinstance(n, ast.ImportFrom):
+                binds += [(n, n.module, a.name) for a in n.names if (a.asname or a.name) == name]
+            elif isinstance(n, ast.Import):
+                binds += [(n, None, a.name) for a in n.names if (a.asname or a.name).split(".")[0] == name]
+            elif isinstance(n, (ast.FunctionDef, ast.AsyncFunctionDef, ast.ClassDef)) and n.name == name:
+                binds.append((n, None, name))
+            else:                             # any other statement (also a class body) that stores the name
+                binds += [(n, None, name) for x in ast.walk(n) if isinstance(x, ast.Name) and x.id == name
+                          and isinstance(x.ctx, (ast.Store, ast.Del))]
+        glob = [n for n in ast.walk(self.tree) if isinstance(n, (ast.Global, ast.Nonlocal)) and name in n.names]
+        star = [n for n in self.tree.body if isinstance(n, ast.ImportFrom) and any(a.name == "*" for a in n.names)]
+        if len(binds) != 1 or binds[0][1] != module or binds[0][2] != name or binds[0][0].level or glob or star:
+            where = (glob + star + [b[0] for b in binds] + [self.tree])[0]
+            self.abort(where, f"{name!r} is not bound exactly once, by 'from {module} import {name}'")
+
+    def opaque(self, name: str, coq: str, **cmp: str):
+        """A type of immutable values the generated file takes from a library, with its comparison functions."""
+        self.opaques[name] = (coq, cmp)
+
+    def constant(self, name: str, module: str, typ: str, term: str, neg: str = None):
+        self.imported(name, module)
+        self.constants[name] = (typ, term, neg)
+
+    def external(self, name: str, module: str, args: List[str], ret: str, coq: str):
+        self.imported(name, module)
+        self.externals[name] = (list(args), ret, coq)
+
+    def use_product(self):
+        self.imported("product", "itertools")
+        self.builtins.add("product")
+
+    def enum(self, name: str) -> str:
+        """`class <name>(Enum)` whose members are all `<MEMBER> = auto()` -> an Inductive and its equality."""
+        cls = self._unique(self.tree.body, name, ast.ClassDef)
+        self.imported("Enum", "enum")
+        self.imported("auto", "enum")
+        if cls.decorator_list or cls.keywords or len(cls.bases) != 1 or not (isinstance(cls.bases[0], ast.Name)
+                                                                             and cls.bases[0].id == "Enum"):
+            self.abort(cls, f"{name} is not a plain 'class {name}(Enum)'")
+        members = []
+        for b in cls.body:
+            if isinstance(b, ast.Expr) and isinstance(b.value, ast.Constant) and isinstance(b.value.value, str):
+                continue
+            if not (isinstance(b, ast.Assign) and len(b.targets) == 1 and isinstance(b.targets[0], ast.Name)
+                    and isinstance(b.value, ast.Call) and isinstance(b.value.func, ast.Name) and b.value.func.id == "auto"
+                    and not b.value.args and not b.value.keywords) or b.targets[0].id in members \
+                    or b.targets[0].id.startswith("_"):
+                self.abort(b, f"statement of the enum {name} other than '<MEMBER> = auto()'")
+            members.append(b.targets[0].id)
+        if not members or name in RESERVED:
+            self.abort(cls, f"enum {name} has no member / a reserved name")
+        self.enums[name] = members
+        rows = [f"  | {name}_{m}, {name}_{m} => true" for m in members] + ["  | _, _ => false"] * (len(members) > 1)
+        return "\n".join([f"(* enum {name}, line {cls.lineno} *)",
+                          f"Inductive {name} : Set := " + " | ".join(f"{name}_{m}" for m in members) + ".",
+                          f"Definition {name}_eqb (a b : {name}) : bool :=", "  match a, b with"] + rows + ["  end."])
+
+    def dataclass(self, spec: DataSpec) -> str:
+        """`@dataclass(frozen=True) class <name>` with the declared fields -> a Record (immutable values)."""
+        cls = self._unique(self.tree.body, spec.name, ast.ClassDef)
+        self.imported("dataclass", "dataclasses")
+        d = cls.decorator_list
+        if len(d) != 1 or not (isinstance(d[0], ast.Call) and isinstance(d[0].func, ast.Name) and d[0].func.id == "dataclass"
+                               and not d[0].args and len(d[0].keywords) == 1 and d[0].keywords[0].arg == "frozen"
+                               and isinstance(d[0].keywords[0].value, ast.Constant) and d[0].keywords[0].value.value is True):
+            self.abort(cls, f"{spec.name} is not decorated exactly with @dataclass(frozen=True)")
+        if cls.keywords or any(not (isinstance(b, ast.Subscript) and isinstance(b.value, ast.Name) and b.value.id == "Generic")
+                               for b in cls.bases):
+            self.abort(cls, "base class other than Generic[..]")
+        names = []
+        for b in cls.body:
+            if isinstance(b, ast.Expr) and isinstance(b.value, ast.Constant) and isinstance(b.value.value, str):
+                continue
+            if not (isinstance(b, ast.AnnAssign) and isinstance(b.target, ast.Name) and b.simple
+                    and (b.value is None or isinstance(b.value, ast.Constant))):
+                self.abort(b, f"statement of the dataclass {spec.name} other than an annotated field")
+            names.append(b.target.id)
+        try:
+            fields = {k: norm_type(v, self.extra_names()) for k, v in spec.fields.items()}
+        except ValueError as e:
+            self.abort(cls, f"unknown declared type {e.args[0]!r} for a field of {spec.name}")
+        if names != list(fields) or spec.name in RESERVED:
+            self.abort(cls, f"the fields of {spec.name} are {names}, declared {list(fields)}")
+        self.datas[spec.name] = replace(spec, fields=fields)
+        return (f"(* dataclass {spec.name}, line {cls.lineno} *)\nRecord {spec.name} : Type := mk_{spec.name} {{ "
+                + "; ".join(f"{spec.name}_{f} : {coq_type(t, self.coq_base())}" for f, t in fields.items()) + " }.")
+
+    def begin_outside(self, insts: Dict[str, tuple]):
+        """What follows is translated after the Section was closed: the classes and dataclasses take the
+        element type as an argument; `insts`: type-name suffix -> (Coq element type, its equality or None)."""
+        self.outside, self.insts = True, dict(insts)
 
     def abort(self, node, msg):
         raise TranslatorAbort(f"{self.path}:{getattr(node, 'lineno', 0)}: {msg}")
 
     def _norm(self, node, spec: FunSpec, extra: Dict[str, str] = None) -> FunSpec:
         try:
-            types = {k: norm_type(v) for k, v in spec.types.items()}
-            ret = norm_type(spec.ret) if spec.ret else ""
+            types = {k: norm_type(v, self.extra_names()) for k, v in spec.types.items()}
+            ret = norm_type(spec.ret, self.extra_names()) if spec.ret else ""
             for v in (extra or {}).values():
-                norm_type(v)
+                norm_type(v, self.extra_names())
         except ValueError as e:
             self.abort(node, f"unknown declared type {e.args[0]!r} for {spec.name}")
         return replace(spec, types=types, ret=ret)
@@ -1118,6 +1717,20 @@ class Unit:
         stores = [n for n in ast.walk(self.tree) if isinstance(n.__dict__.get("ctx"), (ast.Store, ast.Del))
                   and (isinstance(n, ast.Name) and n.id == name or isinstance(n, ast.Attribute) and n.attr == name
                        and not (isinstance(n.value, ast.Name) and n.value.id == "self"))]
+        if body is not self.tree.body and self.extended:
+            # a method: typing stubs (`@overload def m(..): <docstring>`) placed before the definition are replaced
+            # by it when the class body runs; a variable of another function cannot rebind the method
+            stubs = [d for d in defs if isinstance(d, ast.FunctionDef) and d in body and len(d.decorator_list) == 1
+                     and isinstance(d.decorator_list[0], ast.Name) and d.decorator_list[0].id == "overload"
+                     and all(isinstance(b, ast.Pass) or isinstance(b, ast.Expr) and isinstance(b.value, ast.Constant)
+                             for b in d.body)]
+            real = [d for d in defs if d not in stubs]
+            if stubs and len(real) == 1 and real[0] in body and all(body.index(d) < body.index(real[0]) for d in stubs):
+                self.imported("overload", "typing")
+                defs = real
+            direct = {id(x) for b in body if not isinstance(b, (ast.FunctionDef, ast.AsyncFunctionDef, ast.ClassDef))
+                      for x in ast.walk(b)}      # a name is (re)bound in the class only by its own statements
+            stores = [n for n in stores if not isinstance(n, ast.Name) or id(n) in direct]
         if len(defs) != 1 or not isinstance(defs[0], kind) or defs[0] not in body or stores:
             where = (defs + stores + [self.tree])[0]
             self.abort(where, f"{name!r} is not defined exactly once, at the expected level, as a definition that is never rebound")
@@ -1139,30 +1752,59 @@ class Unit:
             if not (isinstance(b, ast.Name) and b.id == "object" or isinstance(b, ast.Subscript)
                     and isinstance(b.value, ast.Name) and b.value.id == "Generic"):
                 self.abort(b, "base class other than object / Generic[..] (it could change what attribute access means)")
-        for b in cls.body:
+        for i, b in enumerate(cls.body):
             doc = isinstance(b, ast.Expr) and isinstance(b.value, ast.Constant) and isinstance(b.value.value, str)
+            if self.extended and isinstance(b, ast.Assign) and len(b.targets) == 1 and isinstance(b.targets[0], ast.Attribute) \
+                    and b.targets[0].attr == "__doc__" and isinstance(b.targets[0].value, ast.Name) \
+                    and any(isinstance(d, ast.FunctionDef) and d.name == b.targets[0].value.id for d in cls.body[:i]) \
+                    and all(isinstance(x, (ast.Attribute, ast.Name, ast.Load)) for x in ast.walk(b.value)):
+                continue                      # <method>.__doc__ = <a dotted name>: only sets a docstring
             if not (isinstance(b, (ast.FunctionDef, ast.Pass)) or doc):
                 self.abort(b, "class body statement other than a method definition")
             if isinstance(b, ast.FunctionDef) and (b.name in FORBIDDEN_METHODS or b.name in cspec.fields):
                 self.abort(b, f"the class defines {b.name!r}, which changes what attribute access means")
         try:
-            fields = {k: norm_type(v) for k, v in cspec.fields.items()}
+            fields = {k: norm_type(v, self.extra_names()) for k, v in cspec.fields.items()}
         except ValueError as e:
             self.abort(cls, f"unknown declared type {e.args[0]!r} for an attribute of {cspec.name}")
         for f in fields:
             if f in RESERVED or not f.isascii() or not f.isidentifier():
                 self.abort(cls, f"attribute name {f!r} collides with the generated Coq text")
+        if self.extended:                      # the class itself is a declared type of the unit
+            self.classes[cspec.name] = replace(cspec, fields=fields, methods=[])
         cspec = replace(cspec, fields=fields, methods=[self._norm(cls, m) for m in cspec.methods])
+        if self.extended:
+            self.classes[cspec.name] = cspec
         st = f"{cspec.short}_state"
         parts = [f"(* class {cspec.name}, line {cls.lineno} *)\nRecord {st} : Type := mk_{cspec.short} {{ "
-                 + "; ".join(f"{cspec.short}_{f} : {coq_type(t)}" for f, t in fields.items()) + " }."]
+                 + "; ".join(f"{cspec.short}_{f} : {coq_type(t, self.coq_base())}" for f, t in fields.items()) + " }."]
         self.done_methods[cspec.name] = []
         for m in cspec.methods:
-            fn = self._unique(cls.body, m.name, ast.FunctionDef)
-            self.params[(cspec.name, m.name)] = [x.arg for x in fn.args.args][1:]
-            parts.append(_Fun(self.path, copy.deepcopy(fn), m, self.prefix, unit=self, cls=cspec).translate())
-            self.done_methods[cspec.name].append(m)
+            parts.append(self._method(cls, cspec, m))
         return "\n\n".join(parts)
+
+    def _method(self, cls: ast.ClassDef, cspec: ClassSpec, m: FunSpec) -> str:
+        fn = self._unique(cls.body, m.name, ast.FunctionDef)
+        self.params[(cspec.name, m.name)] = [x.arg for x in fn.args.args][1:]
+        if self.extended:
+            self.params[(cspec.name, m.name)] = [p for p in self.params[(cspec.name, m.name)] if m.types.get(p) != "none"]
+            if fn.args.vararg:
+                self.varargs[(cspec.name, m.name)] = fn.args.vararg.arg
+        fun = _Fun(self.path, copy.deepcopy(fn), m, self.prefix, unit=self, cls=cspec)
+        text = fun.translate()
+        self.method_uses_eqb[(cspec.name, m.name)] = fun.uses_eqb
+        self.done_methods[cspec.name].append(m)
+        return text
+
+    def method(self, cname: str, m: FunSpec) -> str:
+        """One more method of the class `cname` translated earlier (used after `begin_outside`)."""
+        cspec = self.classes.get(cname)
+        if cspec is None:
+            self.abort(self.tree, f"class {cname} is not translated yet")
+        cls = self._unique(self.tree.body, cname, ast.ClassDef)
+        m = self._norm(cls, m)
+        self.classes[cname] = cspec = replace(cspec, methods=cspec.methods + [m])
+        return self._method(cls, cspec, m)
 
     def prelude(self) -> str:
         """Error/result types (with the error constructors used) and the helper functions used."""
@@ -1176,4 +1818,4 @@ class Unit:
 
     def section_defs(self) -> str:
         """Definitions to place inside the Section, after its Context (they use `ltb`)."""
-        return PY_MIN + "\n" if "py_min" in self.helpers else ""
+        return (PY_MIN + "\n" if "py_min" in self.helpers else "") + (SET_DEFS if "set_add" in self.helpers else "")
